@@ -17,7 +17,8 @@ RULE = ('random trajectory sets; each is passed as list of ints / list of lists 
         'permutes T consistently; the base result equals the exact model. Non-trivial: a non-list form or '
         'non-default dtype is involved (always) and >= 2 trajectories.'
         ' Added classes: (N,1) arrays (N one-frame trajectories), a second strictly increasing relabelling onto alphabets with negative labels whose largest label is n-1 or n, 13..18 index-like states in narrow types, similarity against a second labeling in every representation.'
-        ' Later: all-int8 contiguous alphabets from a negative start with > 128 states, alphabets spanning more than 2^20, flipping `positive` on / re-wrapping a lumped object.')
+        ' Later: all-int8 contiguous alphabets from a negative start with > 128 states, alphabets spanning more than 2^20, flipping `positive` on / re-wrapping a lumped object.'
+        ' Fifth/sixth batch: lumped objects with micro trajectories in every integer width and macro labels beyond them.')
 TRUSTED = ['float comparison of timescales / CK curves at 1e-12 under relabelling']
 ASSUMPTIONS = ['labels within +-2^29']
 BATCH = 100
